@@ -6,7 +6,8 @@ from common import fx, unfx, enc_list, close
 from props import c01, c16
 
 REQUIRED = ['aipw_dr_outcome', 'aipw_dr_treatment', 'aipsw_dr_outcome', 'aipsw_dr_weights_partial',
-            'aipsw_stab_not_dr', 'both_misspecified_can_move', 'tmle_dr_outcome', 'tmle_dr_outcome_real', 'tmle_dr_treatment', 'tmle_saturated']
+            'aipsw_stab_not_dr', 'both_misspecified_can_move', 'tmle_dr_outcome', 'tmle_dr_outcome_real', 'tmle_dr_treatment', 'tmle_saturated',
+            'tmle_dr_treatment_truncated', 'tmle_dr_outcome_unreached_bound', 'aipsw_dr_weights_unreached_bound']
 RULE = ('random categorical data sets (1-3 covariates, positivity by construction); for each estimator one side is '
         'saturated and the other runs through every sub-model of the saturated one (intercept only, main effects only, '
         'each covariate dropped); AIPTW binary/normal/poisson with and without weights, TMLE binary/continuous '
